@@ -18,6 +18,11 @@ AMOUNTS = [0.0, 1e-13, 1e-12, 5e-11, 9e-11, 1.1e-10, 2e-10, 1e-9, 1e-6, 1e-3, 0.
 BASES = [0, 1, -1, 2, 3, 0.0, -0.0, 0.5, -2.5, 1.0, 10.0, 1e-10, -1e-10, 2e-10, 1e-5, 123.456, 1e3]
 
 
+
+class ScriptDry(Exception):
+    """the scripted variation operators have no more children to hand out"""
+
+
 # --------------------------------------------------------------------------- python mirror of the spec (shrinking / replay only)
 
 def fr(v):
@@ -48,7 +53,10 @@ def spec_generate(n, pairs):
     offs = []
     it = iter(pairs)
     while len(offs) < n:
-        c1, c2 = next(it)
+        try:
+            c1, c2 = next(it)
+        except StopIteration:
+            raise ScriptDry()
         if len(offs) == 0:
             offs.append(c1)
         if any(spec_eq(c1, o) for o in offs) and len(offs) < n:
@@ -69,13 +77,23 @@ def ind(v):
     the framework's own algorithms create points with; CMA-ES / CEM use rows of sampled matrices)."""
     from artap.individual import Individual
     k = (len(v) * 7 + int(abs(float(v[0])) * 1e6)) % 4 if len(v) else 0
+    # ... and held by the class the algorithm at hand uses (a stored result re-read as plain Individual meets the live
+    # IndividualNSGAII / IndividualEpsMOEA / IndividualSwarm objects): equality is about the coordinates only
+    c = (len(v) * 3 + int(abs(float(v[-1])) * 1e5)) % 5 if len(v) else 0
+    cls = Individual
+    if c == 1:
+        from artap.algorithm_NSGAII import IndividualNSGAII as cls
+    elif c == 2:
+        from artap.algorithm_swarm import IndividualSwarm as cls
+    elif c == 3:
+        from artap.algorithm_genetic import IndividualEpsMOEA as cls
     if k == 2:
         import numpy as np
-        return Individual([np.float64(t) for t in v])
+        return cls([np.float64(t) for t in v])
     if k == 3:
         import numpy as np
-        return Individual(np.array([float(t) for t in v]))
-    return Individual(list(v))
+        return cls(np.array([float(t) for t in v]))
+    return cls(list(v))
 
 
 def impl_eq(v, w):
@@ -134,7 +152,10 @@ def impl_generate(n, pairs):
 
     class Cross:
         def cross(self, *a, **k):
-            c1, c2 = next(it)
+            try:
+                c1, c2 = next(it)
+            except StopIteration:
+                raise ScriptDry()      # a StopIteration would become RuntimeError inside a generator-based generate
             used[0] += 1
             return list(c1), list(c2)
 
@@ -507,7 +528,7 @@ def report_gen(ctx, n, pairs):
     def bad(ps):
         try:
             return len(ps) >= 1 and impl_generate(n, ps + pad)[0] != spec_generate(n, ps + pad)
-        except StopIteration:
+        except (StopIteration, ScriptDry):
             return False
     dim = len(pairs[0][0])
     pad = pairs[-(n + 1):]
